@@ -17,14 +17,11 @@ exactly an input for which `textFreeList` is `false`.
 `numsOfValue v` / `numsOfCalls cs` collect the numbers; `textFree v cs` is the condition for `v.Refine().cs`.
 -/
 import CtyModel.Lemmas.d05Bridge
+import CtyModel.RefineTextFree
 namespace CtyModel
 namespace Refine
 namespace D05b
 open D05
-
-/-- every two numbers of the list: the code's (text-based) equality is exact comparison -/
-def textFreeList (L : List Num) : Bool :=
-  L.all fun a => L.all fun b => Num.rawEqual a b == (Num.cmp a b == 0)
 
 /-- membership as a Boolean class of numbers -/
 def inList (L : List Num) (x : Num) : Bool := L.any fun y => decide (y = x)
@@ -43,49 +40,6 @@ theorem textFreeList_exact {L : List Num} (h : textFreeList L = true) : TextExac
 /-- on such a list the code's oracle and the total exact oracle agree -/
 theorem agree_of_textFree {L : List Num} (h : textFreeList L = true) : AgreeOn textOracle idealOracle (inList L) :=
   agree_text_ideal (textFreeList_exact h)
-
-/-! ## collecting the numbers of an input -/
-
-def numsOfBound : Option Bound → List Num
-  | none => []
-  | some w => [w.v]
-
-def numsOfRfn : Rfn → List Num
-  | .num _ lo hi => numsOfBound lo ++ numsOfBound hi
-  | _ => []
-
-def numsOfArg : NumArg → List Num
-  | .known m => [m]
-  | .negInf => [.inf true]
-  | .posInf => [.inf false]
-  | _ => []
-
-def numsOfCall : RefineCall → List Num
-  | .numLower a _ => numsOfArg a
-  | .numUpper a _ => numsOfArg a
-  | .numRangeInclusive lo hi => numsOfArg lo ++ numsOfArg hi
-  | _ => []
-
-def numsOfCalls (cs : List RefineCall) : List Num := cs.flatMap numsOfCall
-
-def numsOfPayload : Payload → List Num
-  | .n x => [x]
-  | .unk r => numsOfRfn r
-  | _ => []
-
-/-- a known number, or the bounds an already-refined unknown number carries -/
-def numsOfValue (v : Value) : List Num := numsOfPayload v.unmark.v
-
-def numsOfBuilder (b : Builder) : List Num :=
-  (match b.orig.v with
-   | .n x => [x]
-   | _ => []) ++ numsOfRfn b.wip
-
-/-- THE decidable side condition for `v.Refine().<cs>.NewValue()` -/
-def textFree (v : Value) (cs : List RefineCall) : Bool := textFreeList (numsOfValue v ++ numsOfCalls cs)
-
-/-- … and for a builder in mid-chain -/
-def textFreeB (b : Builder) (cs : List RefineCall) : Bool := textFreeList (numsOfBuilder b ++ numsOfCalls cs)
 
 /-! ## the collected numbers cover what the congruence lemmas ask for -/
 
